@@ -240,7 +240,7 @@ def exhaustive(ctx, env, k, state, points, mode, max_runs=None, workers=8):
         paths[id(r)] = path
         r["_path"] = path
         return r
-    results, complete = sched.explore_all(run_prefix, workers=workers, max_runs=max_runs)
+    results, complete = sched.explore_all(run_prefix, workers=workers, max_runs=max_runs, rng=ctx.rng("c36-frontier", cfgname))
     seen = set()
     for r in results:
         chosen = [t[0] for t in r["trace"]]
@@ -295,6 +295,10 @@ def stress(ctx, env, nproc, nrounds, states):
         ctx.inconclusive("stress run stopped after %d of %d rounds" % (len(rounds), nrounds))
 
 
+def all_complete_flag(ctx):
+    return bool(ctx.exhaustive)
+
+
 def run(ctx):
     ctx.rule = ("one run = k real processes constructing Session() on one SQLite file under one schedule; distinct non-trivial = distinct "
                 "(mode, k, database state, schedule string); every R/I interleaving for k=2 (6) and k=3 (90) on a fresh and on a prepared database")
@@ -318,12 +322,21 @@ def run(ctx):
         all_complete = True
         for k in (2, 3):
             for state in states:
-                n, complete, _ = exhaustive(ctx, env, k, state, ["R", "I"], "RI")
+                cap = 300 if ctx.quick else 1500
+                n, complete, results = exhaustive(ctx, env, k, state, ["R", "I"], "RI", max_runs=cap)
                 all_complete &= complete
-                if complete and n != EXPECTED[k]:
-                    # legal only if some constructor ended before reaching I (then the tree is smaller); on the unchanged code R never fails
-                    ctx.inconclusive("enumerated %d interleavings for k=%d on %s, expected %d" % (n, k, state, EXPECTED[k]))
-                    all_complete = False
+                plain = all(len(r["trace"]) == 2 * k for r in results if r["status"] == "ok")
+                if plain:
+                    # every constructor passed exactly R then I: the tree is the set of interleavings of k sequences R;I
+                    if complete and n != EXPECTED[k]:
+                        ctx.inconclusive("enumerated %d interleavings for k=%d on %s, expected %d" % (n, k, state, EXPECTED[k]))
+                        all_complete = False
+                else:
+                    # the implementation passes the points more than once (e.g. it retries): the tree is larger and possibly
+                    # unbounded; it is explored up to the cap, in random frontier order
+                    ctx.count("runs_with_repeated_points", sum(1 for r in results if len(r["trace"]) != 2 * k))
+                    if not complete and n < EXPECTED[k]:
+                        ctx.inconclusive("only %d interleavings explored for k=%d on %s" % (n, k, state))
         ctx.exhaustive = bool(all_complete)
         # extended points (S, C): the lazy CREATE TABLE inside the first insert on an empty file is part of "created successfully"
         exhaustive(ctx, env, 2, "fresh", ["R", "S", "C", "I"], "RSCI", max_runs=600)
@@ -341,6 +354,8 @@ def run(ctx):
     ctx.require_counter("hook_R_count_reads", 100)
     ctx.require_counter("hook_I_inserts", 100)
     ctx.require_counter("distinct_interleavings", 2 * (6 + 90))
+    if not all_complete_flag(ctx):
+        ctx.extra["note"] = "exploration truncated at the cap: not exhaustive"
     ctx.min_distinct = 150
 
 
